@@ -245,7 +245,7 @@ func (ig *ingest) ctxProvenance(ev *Eval, rule string, ctx, h, v *Term) bool {
 	_ = k
 	pr := props("C15")
 	if rule == "K6.commit" {
-		pr = props("C15", "C16") // a commit callback under a context that shutdown does not cancel keeps the worker from ending
+		pr = props("C15", "C16", "C14") // a commit callback under a context that shutdown does not cancel keeps the worker from ending
 	}
 	if rule == "K6.committee" {
 		pr = props("C15", "C08", "C18") // ... and the committee (membership, leader order) must be the one of the height the term decides
@@ -258,10 +258,10 @@ func (ig *ingest) blockCtxLive(ev *Eval, rule string, block *Term) {
 	b := map[string]*Term{}
 	if !Match(Ext(0, Call("interfaces.RequestNewBlockProposal", Var("bu"), Var("ctx"), Var("h"), Var("id"), Var("prev"))), block, b) {
 		// the block did not come from the SPI on this path (re-proposal of a locked block): nothing to re-check
-		ev.Verdict(rule, props("C15"), "a proposal built from RequestNewBlockProposal(ctx, ...) is broadcast only after ctx.Err() == nil was re-checked", "locked", true, "")
+		ev.Verdict(rule, props("C15", "C11", "C05", "C04"), "a proposal built from RequestNewBlockProposal(ctx, ...) is broadcast only after ctx.Err() == nil was re-checked", "locked", true, "")
 		return
 	}
-	ev.Require(rule, props("C15"), "a proposal built from RequestNewBlockProposal(ctx, ...) is broadcast only after ctx.Err() == nil was re-checked", "fresh", ErrNil(Call("context.Err", b["ctx"])))
+	ev.Require(rule, props("C15", "C11", "C05", "C04"), "a proposal built from RequestNewBlockProposal(ctx, ...) is broadcast only after ctx.Err() == nil was re-checked", "fresh", ErrNil(Call("context.Err", b["ctx"])))
 }
 
 // freshBlock (N2 / K6 / K7): block and hash come as a pair from RequestNewBlockProposal(ctx of the position, h, myId, prevBlock)
